@@ -1,17 +1,47 @@
 #!/usr/bin/env python3
-"""helper: create a mutant patch from an exact-text replacement.  mk(prop, name, file, old, new)"""
-import subprocess, os, sys
+"""helper: create a mutant patch from an exact-text replacement.  mk(prop, name, file, old, new)
+The patch is computed on a copy: /repo is never modified (checks running concurrently read /repo's working tree)."""
+import difflib, os, subprocess, sys, tempfile
 REPO='/repo'
-def mk(prop, name, file, old, new, count=1):
-    p=os.path.join(REPO,file)
-    s=open(p,'rb').read().decode()
-    if s.count(old)==0 and '\r\n' in s and '\r\n' not in old:
-        old=old.replace('\n','\r\n'); new=new.replace('\n','\r\n')
-    assert s.count(old)>=1,(name,'no match')
-    s2=s.replace(old,new,count)
-    open(p,'wb').write(s2.encode())
-    d=subprocess.check_output(['git','diff','--binary'],cwd=REPO)
-    os.makedirs('/verif/selftest/%s'%prop,exist_ok=True)
-    open('/verif/selftest/%s/%s.diff'%(prop,name),'wb').write(d)
-    subprocess.check_call(['git','checkout','--','.'],cwd=REPO)
-    print('made',prop,name)
+def mk(prop, name, file, old, new, count=1, base=None):
+    """base: optional patch file (e.g. a seeded patch.diff) applied to the copy first; the result then contains both changes"""
+    tmp=tempfile.mkdtemp(prefix='kolibrie-mk-')
+    try:
+        files=[file]
+        if base:
+            for l in open(base, errors='replace'):
+                if l.startswith('+++ b/'):
+                    files.append(l[6:].strip())
+        files=sorted(set(files))
+        for f in files:
+            os.makedirs(os.path.dirname(os.path.join(tmp,'a',f)),exist_ok=True)
+            os.makedirs(os.path.dirname(os.path.join(tmp,'b',f)),exist_ok=True)
+            data=open(os.path.join(REPO,f),'rb').read()
+            open(os.path.join(tmp,'a',f),'wb').write(data)
+            open(os.path.join(tmp,'b',f),'wb').write(data)
+        if base:
+            subprocess.check_call(['patch','-p1','-s','--no-backup-if-mismatch','-i',os.path.abspath(base)],cwd=os.path.join(tmp,'b'))
+        p=os.path.join(tmp,'b',file)
+        s=open(p,'rb').read().decode()
+        if s.count(old)==0 and '\r\n' in s and '\r\n' not in old:
+            old=old.replace('\n','\r\n'); new=new.replace('\n','\r\n')
+        assert s.count(old)>=1,(name,'no match')
+        open(p,'wb').write(s.replace(old,new,count).encode())
+        r=subprocess.run(['git','diff','--no-index','--binary','a','b'],cwd=tmp,capture_output=True)
+        d=r.stdout
+        assert d,(name,'empty diff')
+        fixed=[]
+        for line in d.split(b'\n'):
+            if line.startswith(b'diff --git a/a/'):
+                line=line.replace(b' a/a/',b' a/').replace(b' b/b/',b' b/')
+            elif line.startswith(b'--- a/a/'):
+                line=b'--- a/'+line[8:]
+            elif line.startswith(b'+++ b/b/'):
+                line=b'+++ b/'+line[8:]
+            fixed.append(line)
+        d=b'\n'.join(fixed)
+        os.makedirs('/verif/selftest/%s'%prop,exist_ok=True)
+        open('/verif/selftest/%s/%s.diff'%(prop,name),'wb').write(d)
+        print('made',prop,name)
+    finally:
+        subprocess.call(['rm','-rf',tmp])
